@@ -41,10 +41,87 @@ class LoopSpec:
         self.on_exit = on_exit
 
 
+def _mentions(node, name):
+    return any(isinstance(n, ast.Name) and n.id == name for n in ast.walk(node))
+
+
+def _accumulation(loop: ast.For, acc: str):
+    """If `loop` does nothing but fill the container `acc` - optionally behind `if c: continue` guards, an enclosing
+    `if c:` without else, or further such loops nested inside - return (generators, ('dict', key, value) | ('list', elt)): the
+    comprehension that denotes the same container.  None when the loop is anything else."""
+    if loop.orelse or _mentions(loop.iter, acc) or _mentions(loop.target, acc):
+        return None
+    ifs, body = [], list(loop.body)
+    while len(body) > 1:
+        g = body[0]
+        if not (isinstance(g, ast.If) and not g.orelse and len(g.body) == 1 and isinstance(g.body[0], ast.Continue)) or _mentions(g.test, acc):
+            return None
+        ifs.append(ast.UnaryOp(op=ast.Not(), operand=g.test))
+        body = body[1:]
+    if len(body) != 1:
+        return None
+    st = body[0]
+    while isinstance(st, ast.If) and not st.orelse and len(st.body) == 1 and not _mentions(st.test, acc):
+        ifs.append(st.test)
+        st = st.body[0]
+    gen = ast.comprehension(target=loop.target, iter=loop.iter, ifs=ifs, is_async=0)
+    if isinstance(st, ast.For):
+        inner = _accumulation(st, acc)
+        return None if inner is None else ([gen] + inner[0], inner[1])
+    if isinstance(st, ast.Assign) and len(st.targets) == 1 and isinstance(st.targets[0], ast.Subscript) \
+            and isinstance(st.targets[0].value, ast.Name) and st.targets[0].value.id == acc:
+        key = st.targets[0].slice
+        # `acc[k] = v` evaluates v before k, a dict display k before v: only a side-effect free key keeps the order immaterial
+        if not isinstance(key, (ast.Name, ast.Constant)) or _mentions(key, acc) or _mentions(st.value, acc):
+            return None
+        return [gen], ("dict", key, st.value)
+    if isinstance(st, ast.Expr) and isinstance(st.value, ast.Call) and isinstance(st.value.func, ast.Attribute) \
+            and st.value.func.attr == "append" and isinstance(st.value.func.value, ast.Name) and st.value.func.value.id == acc \
+            and len(st.value.args) == 1 and not st.value.keywords and not _mentions(st.value.args[0], acc):
+        return [gen], ("list", st.value.args[0])
+    return None
+
+
+def _empty_container(stmt):
+    """('dict' | 'list', name) when stmt is `name = {}` / `name = []` / `name = dict()` / `name = list()` (also annotated)."""
+    if isinstance(stmt, ast.Assign) and len(stmt.targets) == 1 and isinstance(stmt.targets[0], ast.Name):
+        name, v = stmt.targets[0].id, stmt.value
+    elif isinstance(stmt, ast.AnnAssign) and isinstance(stmt.target, ast.Name) and stmt.value is not None:
+        name, v = stmt.target.id, stmt.value
+    else:
+        return None
+    if isinstance(v, ast.Dict) and not v.keys:
+        return "dict", name
+    if isinstance(v, ast.List) and not v.elts:
+        return "list", name
+    if isinstance(v, ast.Call) and isinstance(v.func, ast.Name) and v.func.id in ("dict", "list") and not v.args and not v.keywords:
+        return v.func.id, name
+    return None
+
+
 class StmtMixin:
     def exec_block(self, stmts, env, path):
-        for s in stmts:
+        i = 0
+        while i < len(stmts):
+            s = stmts[i]
+            # `acc = {}` / `acc = []` followed by a loop that only fills it is the comprehension it spells out (unless a loop
+            # contract is registered for that loop): the two are interchangeable in the source without any change of meaning
+            if i + 1 < len(stmts) and isinstance(stmts[i + 1], ast.For):
+                ec = _empty_container(s)
+                if ec is not None and self.loop_spec_for(stmts[i + 1], env) is None:
+                    acc = _accumulation(stmts[i + 1], ec[1])
+                    if acc is not None and acc[1][0] == ec[0]:
+                        gens, what = acc
+                        comp = (ast.DictComp(key=what[1], value=what[2], generators=gens) if what[0] == "dict"
+                                else ast.ListComp(elt=what[1], generators=gens))
+                        new = ast.Assign(targets=[ast.Name(id=ec[1], ctx=ast.Store())], value=comp)
+                        ast.copy_location(new, stmts[i + 1])
+                        ast.fix_missing_locations(new)
+                        self.exec(new, env, path)
+                        i += 2
+                        continue
             self.exec(s, env, path)
+            i += 1
 
     def exec(self, node, env, path):
         m = getattr(self, "s_" + node.__class__.__name__, None)
